@@ -1,23 +1,42 @@
 import Agd.Gen.TrC08
 import Agd.Model.Normalize
 /-!
-# C08: `maxDNSSize` of the model is the translated source
+# C08: the size / OPT / padding / keep-alive logic of the write paths, as translated from the source
 
-`Agd.Gen.TrC08.maxDNSSize` is regenerated from `internal/dnsserver/normalize.go` on every run
-(`extract/tr.go`; the constants `dns.MaxMsgSize`, `dns.MinMsgSize` and `NetworkUDP` are resolved by
-the Go type checker from the dependency's export data, not copied by hand).
+`Agd.Gen.TrC08.*` are regenerated from `internal/dnsserver/{normalize,msg,protocol,serverdnstcp,
+serverhttps,serverquic}.go` on every run (`extract/tr.go`).  `dns.Msg`, `dns.OPT` and the EDNS options
+are abstract: their getters are opaque values (parameters), their setters, field assignments and
+allocations are entries of the returned *trace*, in order, with the scalar values involved.  The
+theorems are stated on the translated code itself, for all values of the parameters; where the
+hand-written model (`Agd.Model.Normalize`) has a counterpart, the two are proved equal.
 -/
 namespace Agd.Tie.TrC08
-open Agd.Gen.TrC08 Agd.Normalize
+open Agd.Gen.TrC08 Agd.TrPrelude
 
 theorem translation_complete : translationFailures = [] := by decide
+
+abbrev Trace := List (String × List String)
+
+/-- Names of the entries of a trace. -/
+def names (tr : Trace) : List String := tr.map (·.1)
+/-- Argument lists of the entries called `n`. -/
+def argsOf (n : String) (tr : Trace) : List (List String) := (tr.filter (·.1 == n)).map (·.2)
+/-- What happens before / after the first entry called `n`. -/
+def before (n : String) : Trace → Trace
+  | [] => []
+  | x :: r => if x.1 = n then [] else x :: before n r
+def after (n : String) : Trace → Trace
+  | [] => []
+  | x :: r => if x.1 = n then r else after n r
+
+/-! ## `maxDNSSize` -/
 
 /-- The size limit the model's `normalize` truncates to is the one the source computes, for every
 network name, advertised size and configured maximum. -/
 theorem maxDNSSize_tr (network : String) (edns cfg : Nat) :
     Agd.Gen.TrC08.maxDNSSize network edns cfg =
       ((Agd.Normalize.maxDNSSize (decide (network = "udp")) edns cfg : Nat) : Int) := by
-  unfold Agd.Gen.TrC08.maxDNSSize Agd.Normalize.maxDNSSize maxMsgSize minMsgSize
+  unfold Agd.Gen.TrC08.maxDNSSize Agd.Normalize.maxDNSSize Agd.Normalize.maxMsgSize Agd.Normalize.minMsgSize
   by_cases h : network = "udp" <;> simp [h] <;> omega
 
 /-- The property's formula, on the translated definition itself: max(512, min(advertised, configured))
@@ -31,8 +50,345 @@ theorem maxDNSSize_formula (network : String) (edns cfg : Int) :
 example : Agd.Gen.TrC08.maxDNSSize "udp" 1232 4096 = 1232 ∧ Agd.Gen.TrC08.maxDNSSize "udp" 100 4096 = 512 ∧
     Agd.Gen.TrC08.maxDNSSize "tcp" 100 4096 = 65535 := by decide
 
+/-! ## Protocol predicates -/
+
+/-- Padding is supported exactly by DoH (3), DoQ (4) and DoT (5). -/
+theorem padding_support_iff (p : Int) :
+    Protocol_HasPaddingSupport p = true ↔ p = 3 ∨ p = 4 ∨ p = 5 := by
+  simp [Protocol_HasPaddingSupport, Protocol_IsStdEncrypted]; omega
+
+/-- The protocol name (`Protocol.String`) of each transport of the model. -/
+def protoName : Agd.Normalize.Transport → String
+  | .udp | .tcp => "dns"
+  | .dot => "dot" | .doh => "doh" | .doq => "doq"
+  | .dcUdp | .dcTcp => "dnscrypt"
+
+/-- `Transport.hasPadding` of the model is `Protocol.HasPaddingSupport` of the source: for every valid
+protocol constant `p` whose name is the transport's. -/
+theorem hasPadding_tr (p : Int) (fallback : String) (t : Agd.Normalize.Transport)
+    (hvalid : p = 3 ∨ p = 4 ∨ p = 5 ∨ p = 8 ∨ p = 9) (h : Protocol_String p fallback = protoName t) :
+    Protocol_HasPaddingSupport p = t.hasPadding := by
+  rcases hvalid with h' | h' | h' | h' | h' <;> subst h' <;> cases t <;>
+    simp_all [Protocol_String, protoName, Protocol_HasPaddingSupport, Protocol_IsStdEncrypted,
+      Agd.Normalize.Transport.hasPadding]
+
+example : Protocol_String 5 "" = protoName .dot ∧ Protocol_HasPaddingSupport 5 = true := by decide
+
+/-! ## `normalizeTCP`, `normalize` -/
+
+/-- Stream transports normalise with network `tcp` and cap 65535, passing their protocol on. -/
+theorem normalizeTCP_args (proto : Int) :
+    normalizeTCP proto = [("normalize", ["tcp", toString proto, "_", "_", toString (65535 : Int)])] := by
+  simp [normalizeTCP]
+
+/-- Hence the limit they truncate to is 65535 whatever the client advertised. -/
+theorem stream_limit (edns : Int) : Agd.Gen.TrC08.maxDNSSize "tcp" edns 65535 = 65535 := by
+  simp [Agd.Gen.TrC08.maxDNSSize]
+
+section normalize
+variable (network : String) (proto cap : Int) (reqOpt : AbsPtr) (udp : Int) (respOpt : AbsPtr)
+  (dobit : Bool) (filt : AbsPtr)
+
+/- Unfold `normalize` in the current case and make the rendered numbers atoms (`simp` must not try to
+evaluate `toString` of a symbolic integer). -/
+set_option hygiene false in
+local macro "norm_unfold" : tactic => `(tactic| (
+  simp only [normalize, h, Bool.false_eq_true, ↓reduceIte, Bool.not_true, Bool.not_false]
+  try generalize toString (Agd.Gen.TrC08.maxDNSSize network udp cap) = s
+  try generalize toString (Agd.Gen.TrC08.maxDNSSize network 0 cap) = s0
+  try generalize toString udp = u
+  try generalize toString (0 : Int) = z
+  try generalize toString (41 : Int) = ty))
+
+/-- In every path `truncate` is called exactly once, with the size `maxDNSSize` computes from the
+network, the client's advertised size (0 without a request OPT) and the cap. -/
+theorem normalize_truncates_once :
+    argsOf "truncate" (normalize network proto cap reqOpt udp respOpt dobit filt) =
+      [["_", toString (Agd.Gen.TrC08.maxDNSSize network (if reqOpt then udp else 0) cap)]] := by
+  cases reqOpt <;> cases respOpt <;> cases dobit <;> cases h : Protocol_HasPaddingSupport proto <;>
+    norm_unfold <;> simp [argsOf]
+
+/-- A query without OPT: nothing is added to the response — no OPT record, no size echo, no padding. -/
+theorem normalize_no_opt :
+    let tr := normalize network proto cap false udp respOpt dobit filt
+    "new dns.OPT" ∉ names tr ∧ "SetUDPSize" ∉ names tr ∧ "padAnswer" ∉ names tr ∧
+      "set resp.Extra" ∉ names tr := by
+  have h := True.intro
+  norm_unfold; simp [names]
+
+/-- A query with OPT, response with its own OPT: version 0 and the client's UDP size are written into
+it, before `truncate`; no second OPT record is made; DO is set iff the client set it. -/
+theorem normalize_opt_echo_own :
+    let tr := normalize network proto cap true udp true dobit filt
+    ("SetVersion", [toString (0 : Int)]) ∈ before "truncate" tr ∧
+      ("SetUDPSize", [toString udp]) ∈ before "truncate" tr ∧ "new dns.OPT" ∉ names tr ∧
+      (("SetDo", []) ∈ tr ↔ dobit = true) := by
+  cases dobit <;> cases h : Protocol_HasPaddingSupport proto <;> norm_unfold <;> simp [names, before]
+
+/-- A query with OPT, response without: an OPT record whose class field is the client's UDP size (and
+nothing in the TTL field, i.e. version 0) is made from the filtered request options and appended to the
+additional section, before `truncate`. -/
+theorem normalize_opt_echo_synth :
+    let tr := normalize network proto cap true udp false dobit filt
+    ∃ args, ("new dns.OPT", args) ∈ before "truncate" tr ∧ ("Hdr.Class=" ++ toString udp) ∈ args ∧
+      ("Hdr.Rrtype=" ++ toString (41 : Int)) ∈ args ∧ args.length = 4 ∧
+      "filterUnsupportedOptions" ∈ names (before "new dns.OPT" tr) ∧
+      "set resp.Extra" ∈ names (before "truncate" tr) ∧ "SetUDPSize" ∉ names tr := by
+  cases h : Protocol_HasPaddingSupport proto <;> norm_unfold <;> simp [names, before]
+
+/-- `padAnswer` is called iff the query has OPT and the protocol supports padding — by
+`padding_support_iff` only on DoH, DoQ, DoT — and only after `truncate`. -/
+theorem normalize_padding_iff :
+    let tr := normalize network proto cap reqOpt udp respOpt dobit filt
+    ("padAnswer" ∈ names tr ↔ reqOpt = true ∧ Protocol_HasPaddingSupport proto = true) ∧
+      "padAnswer" ∉ names (before "truncate" tr) := by
+  cases reqOpt <;> cases respOpt <;> cases dobit <;> cases h : Protocol_HasPaddingSupport proto <;>
+    norm_unfold <;> simp [names, before]
+
+/-- After `truncate` the OPT record is not touched any more by `normalize` itself (only compression is
+switched on and, possibly, `padAnswer` runs). -/
+theorem normalize_after_truncate :
+    ∀ n ∈ names (after "truncate" (normalize network proto cap reqOpt udp respOpt dobit filt)),
+      n = "set resp.Compress" ∨ n = "padAnswer" := by
+  cases reqOpt <;> cases respOpt <;> cases dobit <;> cases h : Protocol_HasPaddingSupport proto <;>
+    norm_unfold <;> simp [names, after]
+
+end normalize
+
+example : argsOf "truncate" (normalize "udp" 8 4096 true 1232 false false true) = [["_", "1232"]] := by
+  decide
+
+/-! ## `truncate` -/
+
+section truncate
+variable (size : Int) (tc : Bool) (opt : AbsPtr) (nopt na nns ne len : Int)
+
+/-- The library's `Truncate` is called first, with exactly the size given. -/
+theorem truncate_first :
+    (truncate size tc opt nopt na nns ne len).head? = some ("Truncate", [toString size]) := by
+  unfold truncate; cases tc <;> simp <;> split <;> simp
+
+/-- The answer section is removed iff the TC bit is set after `Truncate`. -/
+theorem truncate_answers_iff :
+    ("set resp.Answer", ["nil"]) ∈ truncate size tc opt nopt na nns ne len ↔ tc = true := by
+  unfold truncate; cases tc <;> simp <;> split <;> simp
+
+/-- The options of the OPT record are dropped iff there is an OPT record with options, it is the only
+record left, and the message is still longer than the size. -/
+theorem truncate_drops_options_iff :
+    ("set opt.Option", ["nil"]) ∈ truncate size tc opt nopt na nns ne len ↔
+      opt = true ∧ nopt > 0 ∧ na + nns + ne = 1 ∧ len > size := by
+  unfold truncate; cases tc <;> simp <;> split <;> simp_all
+
+end truncate
+
+open Agd.Normalize in
+/-- The model's `truncate` (answers removed on TC) is the translated one. -/
+theorem truncate_answers_tr (exempt : Bool) (size : Nat) (r : Resp) (o : Option Opt) (opt : AbsPtr)
+    (nopt na nns ne len : Int) :
+    (Agd.Normalize.truncate exempt size r o).ka =
+      if ("set resp.Answer", ["nil"]) ∈ Agd.Gen.TrC08.truncate size (msgTruncate exempt size r o).tc opt nopt na nns ne len
+      then 0 else (msgTruncate exempt size r o).ka := by
+  simp only [truncate_answers_iff]; unfold Agd.Normalize.truncate
+  cases h : (msgTruncate exempt size r o).tc <;> simp [h]
+
+open Agd.Normalize in
+/-- The model's `dropOpts` is the translated option-removal condition, read with the model's
+quantities: options present, records kept (the OPT record itself is in the additional section), and
+`Len()` of what is left. -/
+theorem dropOpts_tr (size : Nat) (r : Resp) (c : Cut) (o : Opt) (tc : Bool) :
+    dropOpts size r c (some o) =
+      if ("set opt.Option", ["nil"]) ∈ Agd.Gen.TrC08.truncate size tc true o.opts.length c.ka c.kn (c.ke + 1)
+            (finalLen r c (some o))
+      then some { o with opts := [] } else some o := by
+  have hk : ((c.ka : Int) + c.kn + (c.ke + 1) = 1) ↔ (c.ka = 0 ∧ c.kn = 0 ∧ c.ke = 0) := by omega
+  have hl : ((finalLen r c (some o) : Nat) : Int) > (size : Int) ↔ finalLen r c (some o) > size := by omega
+  simp only [truncate_drops_options_iff, hk, hl]; unfold dropOpts
+  cases hopts : o.opts <;> simp [hopts, and_assoc]
+
+/-! ## `padAnswer` -/
+
+section pad
+variable (reqPad respPad : AbsPtr) (draw : Int)
+
+/-- No padding option in the request: `padAnswer` does nothing at all. -/
+theorem pad_only_when_requested : padAnswer false respPad draw = [] := by simp [padAnswer]
+
+/-- Otherwise `rand.Intn(31)` is drawn and the padding becomes the first `draw + 1` bytes of the
+buffer; a padding option is allocated iff the response has none. -/
+theorem pad_length :
+    let tr := padAnswer true respPad draw
+    ("Intn", [toString (31 : Int)]) ∈ tr ∧
+      tr.getLast? = some ("set paddingOpt.Padding",
+        ["respPadBuf[" ++ ":" ++ toString (draw + 1) ++ ":" ++ toString (draw + 1) ++ "]"]) ∧
+      ("new dns.EDNS0_PADDING" ∈ names tr ↔ respPad = false) := by
+  cases respPad <;> simp [padAnswer, names]
+
+/-- For every draw `rand.Intn(31)` can return, the length is the model's `padLenOf`, and within 1..31
+(so within the 32-byte buffer). -/
+theorem padLen_tr (d : Nat) (h : d < 31) :
+    ((d : Int) + 1) = (Agd.Normalize.padLenOf d : Nat) ∧ 1 ≤ (d : Int) + 1 ∧ (d : Int) + 1 ≤ 31 := by
+  unfold Agd.Normalize.padLenOf; omega
+
+end pad
+
+example : (padAnswer true false 30).getLast? = some ("set paddingOpt.Padding", ["respPadBuf[:31:31]"]) := by
+  decide
+
+/-! ## `tcpResponseWriter.addTCPKeepAlive` -/
+
+section keepalive
+variable (r : S_dnsserver_tcpResponseWriter) (reqOpt respOpt reqKA respKA : AbsPtr) (ms : Int)
+
+/-- The keep-alive option is touched only when the query has OPT with the keep-alive option (and the
+response has OPT); otherwise nothing happens. -/
+theorem keepalive_only_when_requested
+    (h : addTCPKeepAlive r reqOpt respOpt reqKA respKA ms ≠ []) :
+    reqOpt = true ∧ respOpt = true ∧ reqKA = true := by
+  cases reqOpt <;> cases respOpt <;> cases reqKA <;> simp_all [addTCPKeepAlive]
+
+/-- Then the timeout written is `uint16(idle ms / 100)`, and an option is allocated (code 11) iff the
+response has none. -/
+theorem keepalive_timeout :
+    let tr := addTCPKeepAlive r true true true respKA ms
+    tr.getLast? = some ("set keepAliveOpt.Timeout", [toString (goWrapU 65536 (Int.tdiv ms 100))]) ∧
+      (("new dns.EDNS0_TCP_KEEPALIVE", ["Code=" ++ toString (11 : Int)]) ∈ tr ↔ respKA = false) := by
+  cases respKA <;> simp [addTCPKeepAlive]
+
+/-- The value is the one the model's `keepAliveLen` looks at, for every non-negative idle time. -/
+theorem keepalive_value_tr (idleMs : Nat) :
+    goWrapU 65536 (Int.tdiv (idleMs : Int) 100) = ((idleMs / 100 % 65536 : Nat) : Int) ∧
+      Agd.Normalize.keepAliveLen idleMs =
+        if goWrapU 65536 (Int.tdiv (idleMs : Int) 100) > 0 then 2 else 0 := by
+  have h : goWrapU 65536 (Int.tdiv (idleMs : Int) 100) = ((idleMs / 100 % 65536 : Nat) : Int) := by
+    unfold goWrapU
+    rw [Int.tdiv_eq_ediv_of_nonneg (by omega)]; omega
+  refine ⟨h, ?_⟩
+  rw [h]; unfold Agd.Normalize.keepAliveLen
+  split <;> split <;> omega
+
+end keepalive
+
+/-! ## `packWithPrefix` -/
+
+section pack
+variable (buf0 msg : List Int) (e1 e2 : Option String) (grow packed : List Int)
+
+/-- A message longer than 65535 bytes is refused: the result is the `fmt.Errorf` error, and neither
+the prefix nor anything else is produced. -/
+theorem pack_guard (h : (msg.length : Int) > 65535) :
+    let r := packWithPrefix buf0 (msg, none) e1 e2 grow packed
+    r.1 = [] ∧ r.2.1 = e2 ∧ "PutUint16" ∉ names r.2.2 ∧ "slice" ∉ names r.2.2 := by
+  simp [packWithPrefix, h, names]
+
+/-- Otherwise the prefix written into the first two bytes is exactly the message length (the `uint16`
+conversion never wraps), the buffer is re-sliced to length + 2 and the message copied behind the
+prefix. -/
+theorem pack_prefix_exact (h : (msg.length : Int) ≤ 65535) :
+    let r := packWithPrefix buf0 (msg, none) e1 e2 grow packed
+    r.1 = packed ∧ r.2.1 = none ∧
+      ("PutUint16", ["packed[" ++ ":" ++ toString (2 : Int) ++ "]", toString (msg.length : Int)]) ∈ r.2.2 ∧
+      ("slice", ["slices.Grow(buf, 2)[" ++ ":" ++ toString ((msg.length : Int) + 2) ++ "]"]) ∈ r.2.2 ∧
+      ("copy", ["packed[" ++ toString (2 : Int) ++ ":" ++ "]", "_"]) ∈ r.2.2 := by
+  have hw : goWrapU 65536 (msg.length : Int) = (msg.length : Int) :=
+    goWrapU_of_range (by omega) (by omega)
+  have hn : ¬ ((msg.length : Int) > 65535) := by omega
+  simp [packWithPrefix, hn, hw]
+
+/-- A pack error is passed on (wrapped) and nothing is produced. -/
+theorem pack_error (e : String) (l : List Int) :
+    let r := packWithPrefix buf0 (l, some e) e1 e2 grow packed
+    r.1 = [] ∧ r.2.1 = e1 ∧ "PutUint16" ∉ names r.2.2 := by
+  simp [packWithPrefix, names]
+
+/-- The model's `emitted` flag of the guarded transports (TCP, DoT, DoQ) is "packWithPrefix returned no
+error", given that `fmt.Errorf` returns a non-nil error. -/
+theorem emitted_tr (wire : Nat) (e : String) (h : msg.length = wire) :
+    (!decide (wire > Agd.Normalize.maxMsgSize)) =
+      (packWithPrefix buf0 (msg, none) e1 (some e) grow packed).2.1.isNone := by
+  subst h; unfold Agd.Normalize.maxMsgSize
+  by_cases hl : (msg.length : Int) > 65535
+  · have : msg.length > 65535 := by omega
+    simp [packWithPrefix, hl, this]
+  · have : ¬ msg.length > 65535 := by omega
+    simp [packWithPrefix, hl, this]
+
+end pack
+
+/-! ## The DoQ and DoH write paths -/
+
+/-- DoQ: whatever the handler did, the response is normalised as TCP with protocol DoQ (4) *before* it is
+packed with the length-guarded `packWithPrefix`, and nothing is written to the stream when that
+refuses the message (the connection is closed with a protocol error instead). -/
+theorem doq_write_path (s : S_dnsserver_ServerQUIC) (m : AbsPtr) (la ra : AbsPtr)
+    (rw : Option S_dnsserver_NonWriterResponseWriter) (written : Bool) (gen bufp : AbsPtr)
+    (pk : List Int × Option String) (w : Int × Option String) (rmsg : AbsPtr) :
+    let r := doq_serveQUICStream s (m, none) true la ra rw written gen bufp pk w rmsg
+    ("normalizeTCP", [toString (4 : Int), "_", "_"]) ∈ before "packWithPrefix" r.2 ∧
+      "packWithPrefix" ∈ names r.2 ∧ "Write" ∉ names (before "packWithPrefix" r.2) ∧
+      (pk.2.isSome → "Write" ∉ names r.2 ∧ "closeQUICConn" ∈ names r.2 ∧ r.1 = pk.2) ∧
+      (pk.2 = none → "Write" ∈ names r.2) ∧
+      ("genErrorResponse" ∈ names r.2 ↔ written = false) := by
+  cases written <;> cases h : pk.2 <;>
+    simp only [doq_serveQUICStream, h, Option.isSome_none, Option.isSome_some, Bool.false_eq_true, ↓reduceIte,
+      Bool.not_true, Bool.not_false] <;>
+    generalize toString (4 : Int) = four <;> generalize toString (2 : Int) = two <;>
+    simp [names, before]
+
+/-- DoH: the response is normalised as TCP with protocol DoH (3) before anything else. -/
+theorem doh_normalizes_first (h : S_dnsserver_httpHandler) (d : Bool × Bool × String)
+    (e1 e2 : Option String) (path : String) (pk js : List Int × Option String) (ttl : Int) (w : Int × Option String) :
+    (doh_writeResponse h d e1 path pk ttl w js e2).2.head? =
+      some ("normalizeTCP", [toString (3 : Int), "_", "_"]) := by
+  unfold doh_writeResponse
+  simp only []
+  repeat' split
+  all_goals simp
+
+/-- DoH has no length guard of its own: a wire-format answer that packs is written, whatever its size
+(the known DoH finding: padding after truncation can exceed 65535). -/
+theorem doh_no_size_guard (h : S_dnsserver_httpHandler) (x : Bool) (e1 e2 : Option String) (path : String)
+    (body : List Int) (js : List Int × Option String) (ttl : Int) (w : Int × Option String) :
+    let r := doh_writeResponse h (true, x, "application/dns-message") e1 path (body, none) ttl w js e2
+    "Write" ∈ names r.2 ∧ r.1 = w.2 := by
+  simp [doh_writeResponse, names]
+
+/-- `genErrorResponse` makes a fresh (non-nil) message and sets the given rcode on it. -/
+theorem genErrorResponse_tr (code : Int) :
+    genErrorResponse code = (true, [("new dns.Msg", []), ("SetRcode", ["_", toString code])]) := by
+  simp [genErrorResponse]
+
 end Agd.Tie.TrC08
 
 #print axioms Agd.Tie.TrC08.translation_complete
 #print axioms Agd.Tie.TrC08.maxDNSSize_tr
 #print axioms Agd.Tie.TrC08.maxDNSSize_formula
+#print axioms Agd.Tie.TrC08.padding_support_iff
+#print axioms Agd.Tie.TrC08.hasPadding_tr
+#print axioms Agd.Tie.TrC08.normalizeTCP_args
+#print axioms Agd.Tie.TrC08.stream_limit
+#print axioms Agd.Tie.TrC08.normalize_truncates_once
+#print axioms Agd.Tie.TrC08.normalize_no_opt
+#print axioms Agd.Tie.TrC08.normalize_opt_echo_own
+#print axioms Agd.Tie.TrC08.normalize_opt_echo_synth
+#print axioms Agd.Tie.TrC08.normalize_padding_iff
+#print axioms Agd.Tie.TrC08.normalize_after_truncate
+#print axioms Agd.Tie.TrC08.truncate_first
+#print axioms Agd.Tie.TrC08.truncate_answers_iff
+#print axioms Agd.Tie.TrC08.truncate_drops_options_iff
+#print axioms Agd.Tie.TrC08.truncate_answers_tr
+#print axioms Agd.Tie.TrC08.dropOpts_tr
+#print axioms Agd.Tie.TrC08.pad_only_when_requested
+#print axioms Agd.Tie.TrC08.pad_length
+#print axioms Agd.Tie.TrC08.padLen_tr
+#print axioms Agd.Tie.TrC08.keepalive_only_when_requested
+#print axioms Agd.Tie.TrC08.keepalive_timeout
+#print axioms Agd.Tie.TrC08.keepalive_value_tr
+#print axioms Agd.Tie.TrC08.pack_guard
+#print axioms Agd.Tie.TrC08.pack_prefix_exact
+#print axioms Agd.Tie.TrC08.pack_error
+#print axioms Agd.Tie.TrC08.emitted_tr
+#print axioms Agd.Tie.TrC08.doq_write_path
+#print axioms Agd.Tie.TrC08.doh_normalizes_first
+#print axioms Agd.Tie.TrC08.doh_no_size_guard
+#print axioms Agd.Tie.TrC08.genErrorResponse_tr
